@@ -4,7 +4,7 @@ import Qv.Model.TempRange
 import Qv.Model.Pcbo
 /-! Driver handlers of C15: the four `approximate_*_extrema` functions and the rational part of
 `anneal_temperature_range`. -/
-namespace Qv.Drv
+namespace Qv.Drv.C15
 open Lean Qv
 
 def editOfJson (j : Json) : Except String Edit := do
@@ -83,4 +83,4 @@ def handleGetBounds (j : Json) : Except String Json := do
 def handlersC15 : List (String × (Json → Except String Json)) :=
   [("extrema", handleExtrema), ("temprange", handleTempRange), ("getbounds", handleGetBounds)]
 
-end Qv.Drv
+end Qv.Drv.C15
